@@ -37,6 +37,7 @@ type vtimer struct {
 	armed  bool
 	period time.Duration
 	f      func()
+	inline bool // f is a short non-blocking environment action (a context deadline's cancel): run by the firing thread itself
 }
 
 // Timer mirrors time.Timer with Go 1.23 semantics: Stop/Reset discard an undelivered value and then report true.
@@ -242,10 +243,19 @@ func FireNext() {
 	hb(&timeHB)
 	if best.f != nil {
 		f := best.f
+		if best.inline {
+			f()
+			return
+		}
 		Go(f)
 		return
 	}
+	// delivering the tick is part of the firing: ONE environment action. (The send used to be a scheduling point of its
+	// own; a clock thread that had been scheduled as a deviation - "the timer fires while thread X is preempted" - then
+	// needed a second deviation to get past it, because an environment thread never continues by default.)
+	S.atomic++
 	Select(true, CaseSend(best.ch, S.clock))
+	S.atomic--
 }
 
 // Advance moves the virtual clock without firing anything (sequential harnesses).
